@@ -19,7 +19,8 @@
 //!   `w:[err][!<cleared bits>]+<newly set bits>` (same for wo, mk, au) — bit positions are absolute in the log *file*
 //!   (byte index * 8 + bit, LSB first), so anything outside the mapped window shows up; ranges `a-b`, `-` = none,
 //!   `cw:ok` or `cw:lost<n>` (rounds after which the byte was not the OR of all writers' bits),
-//!   `dead` for every op after the daemon refused a request (a refusal — nack or not — ends its connection thread).
+//!   a refusal — nack or not — ends the daemon's connection thread; the harness reconnects to the same daemon (handler state
+//!   survives) and the history goes on; `dead` for every op after a refusal from which the daemon could not be reconnected.
 use std::os::fd::{AsRawFd, OwnedFd};
 use std::sync::{Arc, Barrier};
 use std::time::Duration;
@@ -30,6 +31,7 @@ use vm_memory::bitmap::Bitmap;
 use vm_memory::{Bytes, GuestAddress, GuestAddressSpace, GuestMemory, GuestMemoryAtomic, GuestMemoryMmap, GuestMemoryRegion};
 
 use crate::daemon::{self, Bench, Config, Ev, LockKind, GM};
+use crate::fam_mem::rehandshake;
 use crate::peer::{self, codes, Ack, PeerErr, Region};
 use crate::util::*;
 
@@ -148,7 +150,8 @@ where
                 if a == Ack::Ok {
                     backing = regs.iter().zip(files).map(|((g, s), f)| (*g, *s, f)).collect();
                 }
-                dead = a != Ack::Ok; // a refused request ends the daemon's connection thread (handle_request error)
+                // a refused request ends the daemon's connection thread: reconnect to the same daemon, the history goes on
+                dead = a != Ack::Ok && (b.reconnect().is_none() || !rehandshake(&mut b.peer));
                 out.push(format!("mt:{}", a.tag()));
             }
             "add" => {
@@ -159,7 +162,8 @@ where
                 if a == Ack::Ok {
                     backing.push((g, s, file));
                 }
-                dead = a != Ack::Ok; // a refused request ends the daemon's connection thread (handle_request error)
+                // a refused request ends the daemon's connection thread: reconnect to the same daemon, the history goes on
+                dead = a != Ack::Ok && (b.reconnect().is_none() || !rehandshake(&mut b.peer));
                 out.push(format!("add:{}", a.tag()));
             }
             "rem" => {
@@ -169,7 +173,8 @@ where
                 if a == Ack::Ok {
                     backing.retain(|(bg, _, _)| *bg != g);
                 }
-                dead = a != Ack::Ok; // a refused request ends the daemon's connection thread (handle_request error)
+                // a refused request ends the daemon's connection thread: reconnect to the same daemon, the history goes on
+                dead = a != Ack::Ok && (b.reconnect().is_none() || !rehandshake(&mut b.peer));
                 out.push(format!("rem:{}", a.tag()));
             }
             "lb" => {
@@ -181,7 +186,7 @@ where
                     Ok(_) => "badreply",
                     Err(PeerErr::Timeout) => "timeout",
                     Err(_) => {
-                        dead = true;
+                        dead = b.reconnect().is_none() || !rehandshake(&mut b.peer);
                         "closed"
                     }
                 };
@@ -260,8 +265,8 @@ where
                     _ => err = true,
                 }
                 out.push(format!("au:{}{}", if err { "err" } else { "" }, log.delta()));
-                // a refused configuration message ends the daemon's connection thread
-                dead = err;
+                // a refused configuration message ends the daemon's connection thread: reconnect, the history goes on
+                dead = err && (b.reconnect().is_none() || !rehandshake(&mut b.peer));
             }
             "cw" => {
                 let (nt, rounds, gpa) = (parse_hex_u64(f[1]) as usize, parse_hex_u64(f[2]) as usize, parse_hex_u64(f[3]));
